@@ -5699,11 +5699,8 @@ class CodegenCtx:
             assert action.into_storage.holds_a(OutputStorageType.STR)
             # Check if we need to allocate
             if ProgramData.do(ProgramFlag.ALLOCATE_STR_SPACE_DYNAMIC_ON_DEMAND) and self._may_be_unallocated(action.into_storage):  # otherwise it is allocated in the start() and stays so
-                if is_start:
-                    # if we're at the start, and there's no default value, and on demand is in effect, there's no possible way for state->c to have any value other than NULL
-                    result.add(f"state->c.{action.into_storage.name} = malloc({action.into_storage.str_size});")
-                else:
-                    result.add(f"if (!state->c.{action.into_storage.name}) state->c.{action.into_storage.name} = malloc({action.into_storage.str_size});")
+                # (also at the start: a default value or an earlier start action may already have allocated it)
+                result.add(f"if (!state->c.{action.into_storage.name}) state->c.{action.into_storage.name} = malloc({action.into_storage.str_size});")
             if len(action.value_expr) > action.into_storage.effective_string_size():
                 raise IllegalDFAStateError("Literal is too long for output", action)
             result.add(self._generate_set_string(action.value_expr, action.into_storage))
